@@ -237,8 +237,12 @@ def run_fastsir(case, full, budget):
         from ..runner import HarnessError
         raise HarnessError('EoN.simulation.random is not the stdlib random module')
     sim.random = _MeanDelays()
+    args = [G, case['tau'], case['gamma']]
+    if (len(case['gc']['edges']) + len(case['I0'])) % 2 == 1:
+        from .. import simrun
+        args, kw = simrun.positional('fast_SIR', args, kw)        # every argument by position, in the documented order
     try:
-        return EoN.fast_SIR(G, case['tau'], case['gamma'], **kw)
+        return EoN.fast_SIR(*args, **kw)
     finally:
         sim.random = _random
 
